@@ -5,10 +5,12 @@ import (
 	"encoding/json"
 	"errors"
 	"fmt"
+	"io"
 	"time"
 
 	"nhooyr.io/websocket"
 	"verif/fw"
+	"verif/refws/deflate"
 	"verif/refws/frame"
 )
 
@@ -22,10 +24,15 @@ type c06MidCase struct {
 	Read   int    `json:"read"`  // bytes of the first message consumed before Close (-1: Reader not even called)
 	Kind   string `json:"kind"`  // close-midread | echo-write-fails
 	Code   int    `json:"code"`  // echo-write-fails: the peer's close code
+	Comp   string `json:"comp"`  // close-midread: "" | takeover | no-takeover (the messages are compressed)
+	Ender  string `json:"ender"` // close-midread: Close (default) | CloseNow
 }
 
 func c06MidStream(cs c06MidCase) (in []byte, msgLen int) {
 	masked := !cs.Client
+	if cs.Comp != "" {
+		return c06MidCompressedStream(cs)
+	}
 	data := func(op byte, fin bool, n int, tag byte) []byte {
 		p := make([]byte, n)
 		for i := range p {
@@ -54,6 +61,41 @@ func c06MidStream(cs c06MidCase) (in []byte, msgLen int) {
 	return
 }
 
+// c06MidCompressedStream: the same shapes with compressed messages of 10
+// (first) and 5 bytes of plaintext; fragments split the deflate stream.
+func c06MidCompressedStream(cs c06MidCase) (in []byte, msgLen int) {
+	masked := !cs.Client
+	def := &deflate.Deflater{NoContextTakeover: cs.Comp == "no-takeover"}
+	plain := func(n int, tag byte) []byte {
+		p := make([]byte, n)
+		for i := range p {
+			p[i] = tag + byte(i) // not a run: keeps the deflate stream a few bytes long
+		}
+		return p
+	}
+	fr := func(op byte, fin, rsv1 bool, pl []byte) []byte {
+		return frame.Frame{Fin: fin, Rsv1: rsv1, Opcode: op, Masked: masked, Key: [4]byte{1, 2, 3, 4}, Payload: pl}.Encode(nil)
+	}
+	first := def.Message(plain(10, 0x41))
+	msgLen = 10
+	half := len(first) / 2
+	switch cs.Shape {
+	case "single":
+		in = append(in, fr(frame.OpBinary, true, true, first)...)
+	case "fragmented":
+		in = append(in, fr(frame.OpBinary, false, true, first[:half])...)
+		in = append(in, fr(frame.OpCont, true, false, first[half:])...)
+	case "two-messages":
+		in = append(in, fr(frame.OpText, true, true, first)...)
+		in = append(in, fr(frame.OpBinary, true, true, def.Message(plain(5, 0x61)))...)
+	case "with-ping":
+		in = append(in, fr(frame.OpBinary, false, true, first[:half])...)
+		in = append(in, frame.Ctl(frame.OpPing, masked, []byte("p")).Encode(nil)...)
+		in = append(in, fr(frame.OpCont, true, false, first[half:])...)
+	}
+	return
+}
+
 func c06MidOne(c *fw.Ctx, cs c06MidCase) {
 	c.Eval()
 	c.AddTraces(1)
@@ -65,10 +107,12 @@ func c06MidOne(c *fw.Ctx, cs c06MidCase) {
 		in, msgLen := c06MidStream(cs)
 		in = append(in, frame.Ctl(frame.OpClose, masked, frame.ClosePayload(1000, "")).Encode(nil)...)
 		t := mxNewTransport(in)
-		conn := mxConn(t, cs.Client, "")
+		conn := mxConn(t, cs.Client, cs.Comp)
 		defer conn.CloseNow()
+		var r io.Reader
 		if cs.Read >= 0 {
-			_, r, err := conn.Reader(context.Background())
+			var err error
+			_, r, err = conn.Reader(context.Background())
 			if err != nil {
 				c.EngineError("midread: Reader failed: " + err.Error())
 				return
@@ -82,13 +126,38 @@ func c06MidOne(c *fw.Ctx, cs c06MidCase) {
 			}
 		}
 		var err error
-		if p := fw.Recover(func() { err = conn.Close(websocket.StatusNormalClosure, "") }); p != "" {
+		if p := fw.Recover(func() {
+			if cs.Ender == "CloseNow" {
+				err = conn.CloseNow()
+			} else {
+				err = conn.Close(websocket.StatusNormalClosure, "")
+			}
+		}); p != "" {
 			c.Violate("C06/panic", desc+": "+p, cs)
 			return
 		}
-		c.OutcomeStr(fmt.Sprintf("mid|%s|%s|%d|%v", role, cs.Shape, cs.Read, err == nil))
+		c.OutcomeStr(fmt.Sprintf("mid|%s|%s|%s|%s|%d|%v", role, cs.Shape, cs.Comp, cs.Ender, cs.Read, err == nil))
 		if err != nil {
-			c.Violate("C06/sender/close-error-despite-echo/"+role+"/message-partly-read", fmt.Sprintf("%s: a %s message was pending (%d bytes of it consumed), the peer's stream then echoes Close(1000), but Close returned %v", desc, cs.Shape, cs.Read, err), cs)
+			c.Violate("C06/sender/close-error-despite-echo/"+role+"/message-partly-read", fmt.Sprintf("%s: a %s message was pending (%d bytes of it consumed), the peer's stream then echoes Close(1000), but %s returned %v", desc, cs.Shape, cs.Read, cs.Ender, err), cs)
+			return
+		}
+		// the connection is closed: reading on with the message reader obtained
+		// before must fail (neither more data nor a clean end of message)
+		if r != nil && cs.Read < msgLen {
+			var n int
+			var rerr error
+			buf := make([]byte, 64)
+			if p := fw.Recover(func() { n, rerr = r.Read(buf) }); p != "" {
+				c.Violate("C06/panic", desc+": Read after close: "+p, cs)
+				return
+			}
+			if rerr == nil || rerr == io.EOF {
+				kind := "plain"
+				if cs.Comp != "" {
+					kind = "compressed"
+				}
+				c.Violate("C06/read-succeeds-after-close/"+role+"/"+kind+"-message-reader", fmt.Sprintf("%s: after %s returned, Read on the reader of the partly read message (%d of %d bytes consumed) returned n=%d err=%v; every read on a closed connection must fail", desc, cs.Ender, cs.Read, msgLen, n, rerr), cs)
+			}
 		}
 	case "echo-write-fails":
 		var pl []byte
@@ -115,7 +184,11 @@ func c06MidCases() []c06MidCase {
 	for _, client := range []bool{false, true} {
 		for _, sh := range []string{"single", "fragmented", "two-messages", "with-ping"} {
 			for _, rd := range []int{-1, 0, 1, 5, 9, 10} {
-				out = append(out, c06MidCase{Client: client, Shape: sh, Read: rd, Kind: "close-midread"})
+				for _, comp := range []string{"", "takeover", "no-takeover"} {
+					for _, ender := range []string{"Close", "CloseNow"} {
+						out = append(out, c06MidCase{Client: client, Shape: sh, Read: rd, Kind: "close-midread", Comp: comp, Ender: ender})
+					}
+				}
 			}
 		}
 		for _, code := range []int{1000, 1001, 1005, 1011, 3000, 4999} {
